@@ -541,6 +541,18 @@ pub fn run(ctx: &Ctx) -> Report {
             }
         }
     }
+    // reference graphs in which a type is reached more than once (repeated references, aliases, anonymous nesting, two
+    // modules): the placement of Box is judged by rustc here (E0072), next to C02's containment-graph monitor
+    for j in 0..(want as u64 / 8) {
+        let cfg = cfg_for(j * 7 + 3);
+        let (srcs, _) = crate::c0235::recursion_shape_sources(seed, j);
+        if let comp::Outcome::Ok { generated, warnings } = &comp::rasn(&srcs, &cfg).out {
+            if warnings.is_empty() && syn::parse_file(generated).is_ok() {
+                rep.count("eligible_cases[recursion-shapes]", 1);
+                elig.push(Eligible { n: 2_000_000 + j as usize, set: None, asn1: srcs.join("\n"), cfg, text: generated.clone(), origin: format!("recursion-shapes(seed={seed},idx={j})") });
+            }
+        }
+    }
     let eligible_ratio = elig.len() as f64 / want.max(1) as f64;
     rep.extra.insert("eligible_selected".into(), json!(elig.len()));
     if eligible_ratio < 0.2 {
